@@ -207,7 +207,7 @@ CLAIMS.update({
         'rm_eltorito removes exactly the catalog names and boot references.  Translation validated against the Python method on every run.  The property itself on generated bootable images (1-6 entries, '
         'platform ids, load sizes, boot info tables, multi-sector boot files followed by data, edits after add_eltorito, reopen in the middle): boot record at 17, validation entry, every entry of the header '
         'chain vs the boot file\'s sector and bytes, boot-info-table fields as stored and as read back, catalog readable under all its names; add+rm_eltorito gives byte-identically the image without El Torito.'),
-  note='Added Model/AccountBoot.v (El Torito over whole EDIT HISTORIES on top of the hard-link accounting model; plain ISO9660 level 3): for every history the declared size is the end of the layout, every catalog entry points at the extent of a live, NON-EMPTY boot file of its own -- also for boot files whose names were removed -- (C11_catalog_points_at_files, C11_load_rba_is_the_files_own_extent), boot info tables sit only on boot files, rm_eltorito removes exactly the catalog (C11_rm_eltorito_exact_after_every_history), refused calls change nothing except the known first-call late refusals (C11_late_refusal_only_on_first_call); the code before fixes d8f44b3/6a3f4a5 is refuted; tied by accountbootleaf.py after EVERY operation (counters, catalog extent, every load_rba, written image reopened and the catalog followed).  Model/Eltorito.v (entries, section headers, catalog record/parse state machine, add_section, the reader loop, boot info table): C11_catalog_extent_roundtrip for every buildable catalog incl. 31 sections and non-bootable entries, entry totality, checksum over the file\'s own bytes; four _refuted witnesses of the first model were repaired in /repo; tied by etleaf.py.  Pointer assignment (load RBA = boot file sector) is not modelled in Coq (sampled). floppy/hdemul media are generated at leaf level only.',
+  note='Added Model/AccountBoot.v (El Torito over whole EDIT HISTORIES on top of the hard-link accounting model; plain ISO9660 level 3): for every history the declared size is the end of the layout, every catalog entry points at the extent of a live, NON-EMPTY boot file of its own -- also for boot files whose names were removed -- (C11_catalog_points_at_files, C11_load_rba_is_the_files_own_extent), boot info tables sit only on boot files, rm_eltorito removes exactly the catalog (C11_rm_eltorito_exact_after_every_history), refused calls change nothing except the known first-call late refusals (C11_late_refusal_only_on_first_call); the code before fixes d8f44b3/6a3f4a5 is refuted; tied by accountbootleaf.py after EVERY operation (counters, catalog extent, every load_rba, written image reopened and the catalog followed).  Added Model/BootParse.v: what open reconstructs of El Torito (catalog bytes, entries, boot files with and without names) composed with AccountBoot: C11_open_reconstructs_the_boot_state (open(write s) = an explicit reopened s), C11_reopened_state_differs_only_by_padding (a nameless boot file keeps its extent and all its bytes), C11_invariants_after_any_edit_write_open_rounds / C11_space_exact_after_any_edit_write_open_rounds / C11_catalog_points_at_files_after_reopen / C11_rm_eltorito_after_reopen; the code before the two repairs this model exposed (nameless boot files overlapping after reopen; tail of a nameless boot file lost) is refuted; tied by bootparseleaf.py (reopened state read off the opened object; the same further edits on the never-closed original and on the reopened object, images compared).  Model/Eltorito.v (entries, section headers, catalog record/parse state machine, add_section, the reader loop, boot info table): C11_catalog_extent_roundtrip for every buildable catalog incl. 31 sections and non-bootable entries, entry totality, checksum over the file\'s own bytes; four _refuted witnesses of the first model were repaired in /repo; tied by etleaf.py.  Pointer assignment (load RBA = boot file sector) is not modelled in Coq (sampled). floppy/hdemul media are generated at leaf level only.',
   technique='Coq proof over translated validation checksum + independent reader and byte comparison on generated bootable images',
   design='§8.11'),
  'C12': dict(category='proof',
